@@ -443,6 +443,7 @@ inductive Arg where
   | strsub (pos count : Nat)              -- str.substr(pos, count): a temporary string
   | strsubv (pos count : Nat)             -- view_type(str).substr(pos, count)
   | ch (c : Nat)                          -- &ch, 1
+  | ptr (off n : Nat)                     -- (str.data() + off, n): a pointer into the characters of the string object
   deriving Repr
 
 def Arg.src (other : Str) : Arg → Except Err Src
@@ -458,6 +459,9 @@ def Arg.src (other : Str) : Arg → Except Err Src
     let n ← other.size
     if pos > n then .error (.pre "string_view::substr: pos <= size()") else .ok ⟨other.buf, pos, min count (n - pos)⟩
   | .ch c => .ok ⟨[c], 0, 1⟩
+  | .ptr off n => do
+    let sz ← other.size
+    if off + n > sz then .error (.pre "argument range inside the characters of the string") else .ok ⟨other.buf, off, n⟩
 
 /-- the characters the argument denotes according to the standard (`none`: the call is not defined) -/
 def Arg.den (other : Spec.Str) : Arg → Option Spec.Str
@@ -470,5 +474,222 @@ def Arg.den (other : Spec.Str) : Arg → Option Spec.Str
   | .strsub pos count => if pos > other.length then none else some (Spec.substr other pos count)
   | .strsubv pos count => if pos > other.length then none else some (Spec.substr other pos count)
   | .ch c => some [c]
+  | .ptr off n => if off + n > other.length then none else some (Spec.substr other off n)
+
+/-- the characters of the view an overload builds from its argument -/
+def Arg.units (other : Str) (a : Arg) : Except Err Units := do
+  let s ← a.src other
+  .ok (Spec.seg s.arr s.off s.len)
+
+/-! ### search members: every overload builds a view of its argument and delegates to `basic_string_view`
+    (C08 model); `pos = none` is the call without `pos`, resolved with the default *written in the header* -/
+
+/-- `find(str|s|ch, pos = 0)`, `find(s, pos, count)`: `etl::strings::find(*this, view, pos)` -/
+def Str.find (s o : Str) (a : Arg) (pos : Option Nat) : Except Err (Option Nat) := do
+  let h ← s.chars
+  let n ← a.units o
+  stringsFind h n (pos.getD 0)
+
+/-- `rfind(str|s|ch, pos = 0)`, `rfind(s, pos, count)`: the header's default is 0 (std: npos — known finding);
+    the `Char` overload goes to `basic_string_view::rfind(Char, pos)` -/
+def Str.rfind (s o : Str) (a : Arg) (pos : Option Nat) : Except Err (Option Nat) := do
+  let h ← s.chars
+  let n ← a.units o
+  match a with
+  | .ch c => C08.rfindChar h c (pos.getD 0)
+  | _ => C08.rfind h n (pos.getD 0)
+
+/-- `find_first_of(…, pos = 0)`: all overloads end in `find_first_of(s, pos, count)` with its `pos < size()` guard -/
+def Str.findFirstOf (s o : Str) (a : Arg) (pos : Option Nat) : Except Err (Option Nat) := do
+  let h ← s.chars
+  let n ← a.units o
+  C04.findFirstOf h n (pos.getD 0)
+
+/-- `find_first_not_of(…, pos = 0)`; the `Char` overload has its own loop in `basic_string_view` -/
+def Str.findFirstNotOf (s o : Str) (a : Arg) (pos : Option Nat) : Except Err (Option Nat) := do
+  let h ← s.chars
+  let n ← a.units o
+  match a with
+  | .ch c => C08.findFirstNotOfChar h c (pos.getD 0)
+  | _ => C08.findFirstNotOf h n (pos.getD 0)
+
+/-- `find_last_of(…, pos = npos)` -/
+def Str.findLastOf (s o : Str) (a : Arg) (pos : Option Nat) : Except Err (Option Nat) := do
+  let h ← s.chars
+  let n ← a.units o
+  C08.findLastOf h n (pos.getD NPOS)
+
+/-- `find_last_not_of(…, pos = npos)` -/
+def Str.findLastNotOf (s o : Str) (a : Arg) (pos : Option Nat) : Except Err (Option Nat) := do
+  let h ← s.chars
+  let n ← a.units o
+  C08.findLastNotOf h n (pos.getD NPOS)
+
+/-- `starts_with(sv|c|s)` -/
+def Str.startsWith (s o : Str) (a : Arg) : Except Err Bool := do
+  let h ← s.chars
+  let n ← a.units o
+  match a with
+  | .ch c => C08.startsWithChar h c
+  | _ => C08.startsWith h n
+
+/-- `ends_with(sv|c|s)` -/
+def Str.endsWith (s o : Str) (a : Arg) : Except Err Bool := do
+  let h ← s.chars
+  let n ← a.units o
+  match a with
+  | .ch c => C08.endsWithChar h c
+  | _ => C08.endsWith h n
+
+/-- `contains(sv|c|s)`: `find(…) != npos` on the view -/
+def Str.contains (s o : Str) (a : Arg) : Except Err Bool := do
+  let h ← s.chars
+  let n ← a.units o
+  C08.contains h n
+
+/-! ### operator+ : a copy of the left operand (for a string: the defaulted copy constructor = the same object
+    value), then `append(rhs)` -/
+
+/-- `operator+(string, string)`: `str.append(rhs)` = the push_back loop over `[rhs.begin(), rhs.end())` -/
+def plusStrStr (a b : Str) : Except Err Str := do
+  let src ← Arg.src b .str
+  appendRange src.arr src.len src.off a
+
+/-- `operator+(string, Char const*)`: `str.append(rhs)` = `append(rhs, traits_type::length(rhs))` -/
+def plusStrCstr (a : Str) (z : Units) : Except Err Str := do
+  let src ← Arg.src a (.cstr z)
+  a.appendPtrN src
+
+/-- `operator+(string, Char)`: `str.append(1, rhs)` -/
+def plusStrCh (a : Str) (c : Nat) : Except Err Str := a.appendFill 1 c
+
+/-- `operator+(Char const*, string)`: `basic_inplace_string{lhs}` (needs `length(lhs) <= Capacity`), `append(rhs)` -/
+def plusCstrStr (z : Units) (b : Str) : Except Err Str := do
+  let src ← Arg.src b (.cstr z)
+  let t ← ctorPtrLen b.cap src.arr src.off src.len
+  let r ← Arg.src b .str
+  appendRange r.arr r.len r.off t
+
+/-- `operator+(Char, string)`: `basic_inplace_string{1, lhs}` (needs `1 <= Capacity`), `append(rhs)` -/
+def plusChStr (c : Nat) (b : Str) : Except Err Str := do
+  let t ← ctorFill b.cap 1 c
+  let r ← Arg.src b .str
+  appendRange r.arr r.len r.off t
+
+/-! ### free `etl::erase_if(c, pred)` -/
+
+/-- `etl::find_if(first, last, pred)`; returns the index -/
+def findIfLoopP (b : Units) (p : Nat → Bool) : Nat → Nat → Except Err Nat
+  | 0, i => .ok i
+  | n + 1, i => do
+    let x ← rd b i
+    if p x then .ok i else findIfLoopP b p n (i + 1)
+
+/-- the `for (auto i = first; ++i != last;)` loop of `etl::remove_if` -/
+def removeLoopP (p : Nat → Bool) : Nat → Nat → Nat → Units → Except Err (Units × Nat)
+  | 0, _, first, b => .ok (b, first)
+  | n + 1, i, first, b => do
+    let x ← rd b i
+    if !p x then
+      let b1 ← wr b first x
+      removeLoopP p n (i + 1) (first + 1) b1
+    else removeLoopP p n (i + 1) first b
+
+/-- `etl::erase_if(c, pred)`: `it = remove_if(begin, end, pred); r = distance(it, end); c.erase(it, end); return r;` -/
+def Str.eraseIf (s : Str) (p : Nat → Bool) : Except Err (Str × Nat) := do
+  let sz ← s.size
+  let first ← findIfLoopP s.buf p sz 0
+  let r ← if first ≠ sz then removeLoopP p (sz - first - 1) (first + 1) first s.buf else .ok (s.buf, first)
+  let s1 : Str := { s with buf := r.1 }
+  let e ← s1.eraseRange r.2 sz
+  .ok (e.1, sz - r.2)
+
+/-! ### self-aliasing arguments: the argument is (a part of) the string that is being modified.
+    The loops below read the buffer they write, exactly as the code does. -/
+
+/-- `etl::copy(str, str + n, end())` with `str = data() + si` -/
+def copyLoopSelf : Nat → Nat → Nat → Units → Except Err Units
+  | 0, _, _, b => .ok b
+  | n + 1, si, di, b => do
+    let x ← rd b si
+    let b1 ← wr b di x
+    copyLoopSelf n (si + 1) (di + 1) b1
+
+/-- `append(data() + off, len)` -/
+def Str.appendPtrNSelf (s : Str) (off len : Nat) : Except Err Str := do
+  let sz ← s.size
+  let safeCount := min len (s.cap - sz)
+  let b ← copyLoopSelf safeCount off sz s.buf
+  ({ s with buf := b } : Str).unsafeSetSize (sz + safeCount)
+
+/-- `append(begin() + i, begin() + i + n)` on the string itself: each `*first` reads the current buffer -/
+def appendRangeSelf : Nat → Nat → Str → Except Err Str
+  | 0, _, s => .ok s
+  | n + 1, i, s => do
+    let x ← rd s.buf i
+    let s1 ← s.pushBack x
+    appendRangeSelf n (i + 1) s1
+
+/-- `insert_impl(begin() + index, data() + off, len)` -/
+def Str.insertImplSelf (s : Str) (index off len : Nat) : Except Err Str := do
+  let currentEnd ← s.size
+  if index > currentEnd then .error (.pre "insert: index <= size()")
+  else
+    let s1 ← s.appendPtrNSelf off len
+    let e ← s1.size
+    let r ← rotate s1.buf index currentEnd e
+    .ok { s1 with buf := r.1 }
+
+/-- the members called with the string itself as argument -/
+inductive SelfOp where
+  | assign (a : Arg)              -- `s.assign(s)`, `s = s`, `s.assign(s, pos, count)`, `s.assign(s.data()+off, n)`
+  | append (a : Arg)              -- `s.append(s)`, `s += s`, `s.append(s, pos, count)`, `s.append(s.data()+off, n)`
+  | insert (index : Nat) (a : Arg) -- `s.insert(i, s)`, `s.insert(i, s, pos, count)`, `s.insert(i, s.data()+off, n)`
+  deriving Repr
+
+def SelfOp.arg : SelfOp → Arg
+  | .assign a => a
+  | .append a => a
+  | .insert _ a => a
+
+/-- the argument forms that can denote the string itself: `.str`, `.strsub` (through a temporary `substr`),
+    `.strsubv` (through a view of the live buffer), `.ptr` (a pointer into the live buffer) -/
+def Arg.isSelfForm : Arg → Bool
+  | .str => true
+  | .strsub .. => true
+  | .strsubv .. => true
+  | .ptr .. => true
+  | _ => false
+
+def Str.selfStep (s : Str) : SelfOp → Except Err Str
+  -- `*this = str` on itself: the defaulted copy assignment; every other form builds a temporary string first
+  | .assign .str => .ok s
+  | .assign a => do
+    let src ← a.src s
+    ctorPtrLen s.cap src.arr src.off src.len
+  -- `append(str)` = `append(str.begin(), str.end())`: both iterators are taken before the loop
+  | .append .str => do
+    let n ← s.size
+    appendRangeSelf n 0 s
+  -- `append(str, pos, count)` = `append(str.substr(pos, count))`: push_back loop over a temporary
+  | .append (.strsub pos count) => do
+    let src ← (Arg.strsub pos count).src s
+    appendRange src.arr src.len src.off s
+  | .append a => do
+    let src ← a.src s
+    s.appendPtrNSelf src.off src.len
+  -- no header overload does this (insert takes the sub-string through a view); modelled as a temporary for totality
+  | .insert index (.strsub pos count) => do
+    let src ← (Arg.strsub pos count).src s
+    s.insertImpl index src
+  | .insert index a => do
+    let src ← a.src s
+    s.insertImplSelf index src.off src.len
+
+/-- the same call with an independent copy `d` of the argument's characters -/
+def SelfOp.plain (d : Units) : SelfOp → Op
+  | .assign _ => .assignPtr d 0 d.length
+  | .append _ => .appendPtrN d 0 d.length
+  | .insert index _ => .insertImpl index d 0 d.length
 
 end Tetl.C04
